@@ -24,7 +24,9 @@ Section Trace.
       - an entry that moves another path onto [p] is the last step of the file currently at [p] (k = 0; the walk
         continues with its source); going further back it is the point where the file now at depth k was at depth k-1;
       - an entry that renames [p] away took the file that was then at [p] with it: what is at depth k now was at depth
-        k+1 before. *)
+        k+1 before;
+      - a COPY entry (status C, fix e81cbba) starts a file of its own at its destination -- the chain is just that entry --
+        and leaves its source alone. *)
   Fixpoint trace (rev_log : list entry) (p : string) (k : nat) : list entry :=
     match rev_log with
     | [] => []
@@ -32,12 +34,40 @@ Section Trace.
       if negb (live e) then trace older p k
       else if String.eqb (le_dst e) p then
         match k with
-        | O => trace older (le_src e) O ++ [e]
-        | S k' => if String.eqb (le_src e) p then trace older p k else trace older p k'
+        | O => if is_copy e then [e] else trace older (le_src e) O ++ [e]
+        | S k' => if String.eqb (le_src e) p && negb (is_copy e) then trace older p k else trace older p k'
         end
-      else if String.eqb (le_src e) p then trace older p (S k)
+      else if String.eqb (le_src e) p && negb (is_copy e) then trace older p (S k)
       else trace older p k
     end.
+
+  (** the same walk for logs without copy entries (what `git log` prints unless copy detection is configured) *)
+  Fixpoint trace_nc (rev_log : list entry) (p : string) (k : nat) : list entry :=
+    match rev_log with
+    | [] => []
+    | e :: older =>
+      if negb (live e) then trace_nc older p k
+      else if String.eqb (le_dst e) p then
+        match k with
+        | O => trace_nc older (le_src e) O ++ [e]
+        | S k' => if String.eqb (le_src e) p then trace_nc older p k else trace_nc older p k'
+        end
+      else if String.eqb (le_src e) p then trace_nc older p (S k)
+      else trace_nc older p k
+    end.
+
+  Lemma trace_nocopy : forall rl, (forall e, In e rl -> is_copy e = false) -> forall p k, trace rl p k = trace_nc rl p k.
+  Proof.
+    induction rl as [|e r IH]; intros Hnc p k; [reflexivity|].
+    assert (He : is_copy e = false) by (apply Hnc; left; reflexivity).
+    assert (Hr : forall x, In x r -> is_copy x = false) by (intros x Hx; apply Hnc; right; exact Hx).
+    cbn [trace trace_nc]. rewrite He. cbn [negb]. rewrite !andb_true_r.
+    destruct (negb (live e)); [apply IH; auto|].
+    destruct (String.eqb (le_dst e) p).
+    - destruct k as [|k']; [rewrite IH by auto; reflexivity|].
+      destruct (String.eqb (le_src e) p); apply IH; auto.
+    - destruct (String.eqb (le_src e) p); apply IH; auto.
+  Qed.
 
   (** the change record a chain stands for: origin from its first entry, destination/status from its last, all commits *)
   Definition change_of_chain (ch : list entry) : option change :=
@@ -120,45 +150,51 @@ Section Trace.
     unfold step, live.
     destruct (allowed (le_dst e)) eqn:Ea; simpl; [|apply HI].
     destruct (is_dir (le_dst e)) eqn:Ed; simpl; [apply HI|].
-    pose proof (HI (le_src e) 0) as Hsrc.
-    rewrite get_is_nth0.
-    destruct (nth_by_path C (le_src e) 0) as [prev|] eqn:Eprev.
-    - (* a previous change for src exists: it is continued and dropped *)
-      unfold nth_by_path in *. rewrite rev_app_distr. simpl rev. unfold changes_without. rewrite rev_involutive.
-      simpl app. cbn [filter]. unfold has_after at 1. cbn [ch_after].
-      destruct (String.eqb (le_dst e) p) eqn:Edp.
-      + destruct (String.eqb (le_src e) p) eqn:Esp.
-        * apply String.eqb_eq in Esp. rewrite <- Esp in *. rewrite filter_remove_first_same.
-          destruct k as [|k']; simpl.
-          -- symmetry. apply change_of_chain_snoc. symmetry. exact Hsrc.
-          -- rewrite nth_error_tl. apply (HI (le_src e) (S k')).
-        * apply String.eqb_neq in Esp. rewrite filter_remove_first_other by (intros x Hx; eapply has_after_other; eauto).
-          destruct k as [|k']; simpl.
-          -- symmetry. apply change_of_chain_snoc. symmetry. exact Hsrc.
-          -- apply (HI p k').
-      + destruct (String.eqb (le_src e) p) eqn:Esp.
-        * apply String.eqb_eq in Esp. rewrite <- Esp in *. rewrite filter_remove_first_same.
-          rewrite nth_error_tl. apply (HI (le_src e) (S k)).
-        * apply String.eqb_neq in Esp. rewrite filter_remove_first_other by (intros x Hx; eapply has_after_other; eauto).
-          apply (HI p k).
-    - (* no previous change: nothing ends at src, at any depth *)
-      assert (Hnone : forall j, trace (rev prefix) (le_src e) j = []).
-      { intro j. apply change_of_chain_none. rewrite <- (HI (le_src e) j). unfold nth_by_path in *.
-        apply nth0_none_all. exact Eprev. }
+    destruct (is_copy e) eqn:Ecp; cbn [negb]; rewrite ?andb_false_r, ?andb_true_r.
+    - (* a copy: a fresh record is appended, nothing is continued or dropped *)
       unfold nth_by_path in *. rewrite rev_app_distr. simpl rev. simpl app. cbn [filter]. unfold has_after at 1. cbn [ch_after].
       destruct (String.eqb (le_dst e) p) eqn:Edp.
-      + destruct (String.eqb (le_src e) p) eqn:Esp.
-        * apply String.eqb_eq in Esp. rewrite <- Esp in *.
-          destruct k as [|k']; simpl.
-          -- rewrite (Hnone 0). reflexivity.
-          -- rewrite (Hnone (S k')). rewrite (nth0_none_all _ k' Eprev). reflexivity.
-        * destruct k as [|k']; simpl.
-          -- rewrite (Hnone 0). reflexivity.
-          -- apply (HI p k').
-      + destruct (String.eqb (le_src e) p) eqn:Esp.
-        * apply String.eqb_eq in Esp. rewrite <- Esp in *. rewrite (Hnone (S k)).
-          rewrite (nth0_none_all _ k Eprev). reflexivity.
-        * apply (HI p k).
+      + destruct k as [|k']; simpl; [reflexivity | apply (HI p k')].
+      + apply (HI p k).
+    - pose proof (HI (le_src e) 0) as Hsrc.
+      rewrite get_is_nth0.
+      destruct (nth_by_path C (le_src e) 0) as [prev|] eqn:Eprev.
+      + (* a previous change for src exists: it is continued and dropped *)
+        unfold nth_by_path in *. rewrite rev_app_distr. simpl rev. unfold changes_without. rewrite rev_involutive.
+        simpl app. cbn [filter]. unfold has_after at 1. cbn [ch_after].
+        destruct (String.eqb (le_dst e) p) eqn:Edp.
+        * destruct (String.eqb (le_src e) p) eqn:Esp.
+          -- apply String.eqb_eq in Esp. rewrite <- Esp in *. rewrite filter_remove_first_same.
+             destruct k as [|k']; simpl.
+             ++ symmetry. apply change_of_chain_snoc. symmetry. exact Hsrc.
+             ++ rewrite nth_error_tl. apply (HI (le_src e) (S k')).
+          -- apply String.eqb_neq in Esp. rewrite filter_remove_first_other by (intros x Hx; eapply has_after_other; eauto).
+             destruct k as [|k']; simpl.
+             ++ symmetry. apply change_of_chain_snoc. symmetry. exact Hsrc.
+             ++ apply (HI p k').
+        * destruct (String.eqb (le_src e) p) eqn:Esp.
+          -- apply String.eqb_eq in Esp. rewrite <- Esp in *. rewrite filter_remove_first_same.
+             rewrite nth_error_tl. apply (HI (le_src e) (S k)).
+          -- apply String.eqb_neq in Esp. rewrite filter_remove_first_other by (intros x Hx; eapply has_after_other; eauto).
+             apply (HI p k).
+      + (* no previous change: nothing ends at src, at any depth *)
+        assert (Hnone : forall j, trace (rev prefix) (le_src e) j = []).
+        { intro j. apply change_of_chain_none. rewrite <- (HI (le_src e) j). unfold nth_by_path in *.
+          apply nth0_none_all. exact Eprev. }
+        unfold nth_by_path in *. rewrite rev_app_distr. simpl rev. simpl app. cbn [filter]. unfold has_after at 1. cbn [ch_after].
+        destruct (String.eqb (le_dst e) p) eqn:Edp.
+        * destruct (String.eqb (le_src e) p) eqn:Esp.
+          -- apply String.eqb_eq in Esp. rewrite <- Esp in *.
+             destruct k as [|k']; simpl.
+             ++ rewrite (Hnone 0). reflexivity.
+             ++ rewrite (Hnone (S k')). rewrite (nth0_none_all _ k' Eprev). reflexivity.
+          -- destruct k as [|k']; simpl.
+             ++ rewrite (Hnone 0). reflexivity.
+             ++ apply (HI p k').
+        * destruct (String.eqb (le_src e) p) eqn:Esp.
+          -- apply String.eqb_eq in Esp. rewrite <- Esp in *. rewrite (Hnone (S k)).
+             rewrite (nth0_none_all _ k Eprev). reflexivity.
+          -- apply (HI p k).
   Qed.
 
   Lemma fold_left_snoc {A B} (f : A -> B -> A) l x a : fold_left f (l ++ [x]) a = f (fold_left f l a) x.
@@ -198,7 +234,7 @@ Section Trace.
     Forall (fun c => ch_commits c <> []) C -> Forall (fun c => ch_commits c <> []) (step type_at allowed is_dir C e).
   Proof.
     intro H. unfold step. destruct (negb (allowed (le_dst e))); auto. destruct (is_dir (le_dst e)); auto.
-    destruct (get_change_by_path C (le_src e)) as [prev|].
+    destruct (if is_copy e then None else get_change_by_path C (le_src e)) as [prev|].
     - apply Forall_app. split.
       + unfold changes_without. apply Forall_forall. intros x Hx. apply in_rev in Hx. apply remove_first_In in Hx.
         apply in_rev in Hx. eapply Forall_forall in H; eauto.
